@@ -31,7 +31,8 @@ SLACK = {"proba_sum": 1e-12, "cert_rel": 1e-6}
 ASSUMPTIONS = ["binary convention of the estimators: classes_ sorted, larger label is the positive class"]
 FLOOR = {"quick": 100, "thorough": 1500}
 REPS = {"quick": 45, "thorough": 500}
-CLFS = ["SparseLogisticRegression", "LinearSVC", "GLE-Logistic", "GLE-QuadraticSVC"]
+CLFS = ["SparseLogisticRegression", "LinearSVC", "GLE-Logistic", "GLE-QuadraticSVC", "GLE-LogisticGroup"]
+_P = [0]        # number of features of the case being built (the group datafit needs its index arrays)
 
 
 def plan(tier, seed):
@@ -75,6 +76,13 @@ def build(clf, alpha, Cc, icpt, tol):
         return E.LinearSVC(C=Cc, tol=tol, max_iter=200, max_epochs=5000)
     if clf == "GLE-Logistic":
         return E.GeneralizedLinearEstimator(D.Logistic(), P.L1(alpha), ProxNewton(tol=tol, fit_intercept=icpt, max_iter=100))
+    if clf == "GLE-LogisticGroup":
+        # the group-structured logistic datafit used as a classifier (singleton groups with unit weights: the problem is
+        # the L1 logistic regression, so the binary certificate below applies unchanged)
+        from skglm.solvers import GroupBCD
+        ptr, ind = C.groups_to_ptr([np.array([j]) for j in range(_P[0])])
+        return E.GeneralizedLinearEstimator(D.LogisticGroup(ptr, ind), P.WeightedGroupL2(alpha, np.ones(_P[0]), ptr, ind),
+                                            GroupBCD(tol=tol, fit_intercept=icpt, max_iter=200, max_epochs=5000))
     return E.GeneralizedLinearEstimator(D.QuadraticSVC(), P.IndicatorBox(Cc),
                                         AndersonCD(tol=tol, fit_intercept=False, max_iter=200, max_epochs=5000))
 
@@ -96,10 +104,13 @@ def run_shard(spec, emit):
 def one(emit, cid, clf, rng, sample):
     n, p = int(rng.integers(25, 60)), int(rng.integers(3, 10))
     K = int(rng.choice([2, 2, 3, 4, 5]))
+    if clf == "GLE-LogisticGroup":
+        K = 2           # (more classes: the one-vs-rest clone of a GLE is a recorded finding, see C12-gle-multiclass-clone)
+    _P[0] = p
     X = C.make_X(rng, n, p, str(rng.choice(["gauss", "shifted", "ar"])), rho=0.7)
     if rng.random() < 0.5:
         X = X + rng.uniform(2, 6)            # non-centred features: a dropped intercept matters
-    sparse_in = bool(rng.integers(0, 2))
+    sparse_in = bool(rng.integers(0, 2)) and clf != "GLE-LogisticGroup"      # (that datafit refuses sparse input)
     Xin = C.to_storage(X, "csc") if sparse_in else X
     icpt = bool(rng.integers(0, 2)) and "SVC" not in clf
     tol = 1e-6
@@ -130,6 +141,11 @@ def one(emit, cid, clf, rng, sample):
                             detail=repr(e)[:300])))
         return
     common = dict(classifier=clf, n_classes=K, labels=kind, fit_intercept=icpt)
+    if not hasattr(est, "classes_"):
+        emit(dict(base, status="violated", nontrivial=True,
+                  viol=dict(common, mechanism="fitted-classifier-has-no-classes_",
+                            detail="%s fitted on labels of kind %s has no classes_ attribute" % (clf, kind))))
+        return
     classes = np.asarray(est.classes_)
     if not np.array_equal(classes, np.unique(y)):
         viols.append(dict(common, mechanism="classes_-differs-from-sorted-labels", detail="%s vs %s" % (classes, np.unique(y))))
